@@ -1785,6 +1785,9 @@ func (g *IG) caseNil(c RetCase, v ssa.Value) (isNil, nonNil bool) {
 	if g.M.nonNilErrorGlobal(v) {
 		return false, true
 	}
+	if _, isMI := v.(*ssa.MakeInterface); isMI {
+		return false, true // an interface holding a typed value is not the nil interface
+	}
 	for _, f := range g.CaseFacts(c) {
 		if isNilFact(f, token.EQL, func(x ssa.Value) bool { return x == v }) {
 			isNil = true
